@@ -3,7 +3,8 @@
 # warm the numba cache for the current /repo sources.
 cd "$(dirname "$0")/.."
 mkdir -p coq/gen coq/props .work .cache evidence replays
-tools/coqbuild.sh > .work/setup_coq.log 2>&1 || { tail -30 .work/setup_coq.log; echo "coq build failed"; exit 1; }
+# whole development, keep going past a broken file: every check rebuilds exactly what it needs anyway
+COQ_KEEP_GOING=1 COQ_TIMEOUT=3000 tools/coqbuild.sh > .work/setup_coq.log 2>&1 || { grep -B2 -A12 "Error" .work/setup_coq.log | head -60; echo "WARNING: some Coq files failed to build (see above); the checks that depend on them will report it"; }
 REPO="${VERIF_REPO:-/repo}"
 SRCKEY=$(cat "$REPO"/tsdate/*.py | sha1sum | cut -c1-16)
 mkdir -p ".cache/numba/$SRCKEY"
